@@ -69,6 +69,8 @@ def cases() -> Any:
         # a middleware whose on_error hook itself fails (worker driven through the Receiver): the callback is aborted, the dependencies
         # that were opened are finalised all the same
         "on_error_fails": st.sampled_from([False, False, False, True]),
+        # all (overlapping) executions carry the SAME task id: a redelivery, a message kicked twice
+        "same_id": st.sampled_from([False, False, False, True]),
     }))
 
 
@@ -135,11 +137,11 @@ def run_case(c: Dict[str, Any]) -> Outcome:
             labels = {"timeout": 0.1} if c["outcome"] == "timeout" else ({"timeout": c["slack_timeout"]} if c.get("slack_timeout") else {})
             slp = 0.5 if c["outcome"] == "timeout" else 0.05
             if via != "receiver":
-                await AsyncKicker("t", b, labels).with_task_id(f"id{k}").kiq(k, slp)
+                await AsyncKicker("t", b, labels).with_task_id("id0" if c.get("same_id") else f"id{k}").kiq(k, slp)
                 if via == "inmemory":
                     await b.wait_all()
                 return
-            m = b.formatter.dumps(AsyncKicker("t", b, labels).with_task_id(f"id{k}")._prepare_message(k, slp)).message
+            m = b.formatter.dumps(AsyncKicker("t", b, labels).with_task_id("id0" if c.get("same_id") else f"id{k}")._prepare_message(k, slp)).message
             try:
                 await r.callback(AckableMessage(data=m, ack=lambda: LOG("ack")))
             except RuntimeError as e:
@@ -242,7 +244,7 @@ def run_case(c: Dict[str, Any]) -> Outcome:
     out.nontrivial = bool((multi_yield and nonret) or len(c["starts"]) >= 2)
     out.classes = [c["outcome"], c["ack_type"], "via=" + c.get("via", "receiver"), "propagate" if c["propagate"] else "no_propagate"] + [cl for cl, f in (
         ("uncached_nested_yielding", info["uncached_nested"]), ("multi_yield", multi_yield), ("concurrent", len(c["starts"]) >= 2),
-        ("async_cleanup", bool(c.get("cleanup"))), ("on_error_hook_failed", hook_aborted), ("dependency_failure", any(nodes[i]["fail"] == "before" for i in dg.reachable(nodes, tdeps)))) if f]
+        ("async_cleanup", bool(c.get("cleanup"))), ("on_error_hook_failed", hook_aborted), ("executions_share_a_task_id", bool(c.get("same_id")) and len(c["starts"]) >= 2), ("dependency_failure", any(nodes[i]["fail"] == "before" for i in dg.reachable(nodes, tdeps)))) if f]
     out.trace = {"log0": _brief(logs.get(0, []))}
     return out
 
